@@ -175,7 +175,8 @@ class TracedBus(EventBus):
         except BaseException as ex:
             run.rec('enq_raise', bus=self._idx, ev=tag, by=by, exc=type(ex).__name__, hist=len(self.event_history), inhist=event.event_id in self.event_history)
             raise
-        run.rec('enq_ok', bus=self._idx, ev=tag, by=by, hist=len(self.event_history), same=r is event)
+        q = getattr(self.event_queue, '_queue', None) if self.event_queue is not None else None
+        run.rec('enq_ok', bus=self._idx, ev=tag, by=by, hist=len(self.event_history), same=r is event, inq=q is not None and any(x is event for x in q))
         return r
 
     def _start(self):
@@ -248,6 +249,8 @@ class Run:
         self.hidx: dict[str, int] = {}
         self.children: dict[int, list[int]] = {}
         self.spawned: list[asyncio.Task] = []
+        self.n_gather = 0
+        self.actor_cur: dict = {}
         self.actor_tasks: list[asyncio.Task] = []
         self.actor_state: dict[int, Any] = {}
         self.actor_events: dict[int, list] = {}
@@ -559,6 +562,26 @@ class Run:
                     # anything inline, so on an incomplete child (F1) they would block the handler for ever while it holds the lock)
                     self.rec('child_result', by=by, ev=self.tag_of(c))
                     await c.event_result()  # re-raises the child's first error (the original object) inside this handler
+            elif k == 'gather':
+                # `await asyncio.gather(bus_a.dispatch(X()), bus_b.dispatch(Y()))` inside a handler: each child is awaited in a
+                # helper task of its own (created by gather, inheriting the handler's context)
+                kids = []
+                for (t, b) in op[1]:
+                    c = self.mk(t, None, event)
+                    if self._dispatch(c, b, by, parent_tag):
+                        kids.append(c)
+                gids = [f'G{self.n_gather + j}' for j in range(len(kids))]
+                self.n_gather += len(kids)
+                self.rec('gather', by=by, gids=gids, evs=[self.tag_of(c) for c in kids])
+
+                async def one(c, gid):
+                    t_ = asyncio.current_task()
+                    self.task_role[id(t_)] = gid
+                    self.keep.append(t_)
+                    await self._await_event(c, gid)
+
+                if kids:
+                    await asyncio.gather(*[one(c, g) for c, g in zip(kids, gids)])
             elif k == 'await_actor':
                 other = self.actor_events.get(op[1], [])
                 if op[2] < len(other) and other[op[2]].event_path and not self._in_own_ancestry(other[op[2]], event):
@@ -678,7 +701,7 @@ class Run:
                 except BaseException as ex:
                     got = type(ex).__name__
                 self.rec('event_bus', by=by, got=got)
-            elif k in ('sleep', 'spawn', 'await_shared', 'await_actor', 'stop_bus'):
+            elif k in ('sleep', 'spawn', 'await_shared', 'await_actor', 'stop_bus', 'gather'):
                 continue  # not expressible in a sync handler
             else:
                 raise AssertionError(f'unknown op {op}')
@@ -807,6 +830,7 @@ class Run:
             k = op[0]
             self.actor_state[ai] = (i, k)
             sq = self.rec('a_begin', by=by, i=i, op=k)
+            self.actor_cur[ai] = (sq, op)
             res: dict[str, Any] = {}
             try:
                 if k == 'sleep':
@@ -984,6 +1008,15 @@ class Run:
         for ai, t in enumerate(self.actor_tasks):
             if not t.done():
                 self.rec('a_blocked', by=f'A{ai}', at=self.actor_state.get(ai))
+                sq_, op_ = self.actor_cur.get(ai, (None, None))
+                if op_ is not None and op_[0] == 'idle' and op_[1] in self.buses:
+                    # a wait_until_idle() caller still blocked after W virtual seconds of complete silence: record what its bus
+                    # looks like now, BEFORE the harness's own probe below calls wait_until_idle() on the same bus (that call
+                    # can release a caller the library had stranded)
+                    b = self.buses[op_[1]]
+                    self.rec('idle_hang', by=f'A{ai}', bus=op_[1], call=sq_, q=b.event_queue.qsize() if b.event_queue else 0,
+                             pend=[self.tag_of(e) for e in b.events_pending], started=[self.tag_of(e) for e in b.events_started],
+                             unfinished=getattr(b.event_queue, '_unfinished_tasks', None))
         for si, t in enumerate(self.spawned):
             if not t.done():
                 self.rec('s_blocked', sid=f'S{si}')
